@@ -12,7 +12,7 @@ Bases_conn2 == {BaseRec("mp42", 1), BaseRec("mp21", 2), BaseRec("tri1", 2), Base
 Bases_mul == {BaseRec("mul22", 1), BaseRec("mul21", 2), BaseRec("mul32p", 1)}
 Bases_mul2 == {BaseRec("mul22", 2), BaseRec("mul32p", 1)}
 Bases_one == {BaseRec("line3", 2)}
-Bases_quick == {BaseRec("line3", 2), BaseRec("line3p", 1), BaseRec("rect22", 1), BaseRec("rect32p", 1), BaseRec("mp21", 1),
+Bases_quick == {BaseRec("line3", 2), BaseRec("line3p", 1), BaseRec("rect22", 1), BaseRec("rect21", 2), BaseRec("rect32p", 1), BaseRec("mp21", 1),
                 BaseRec("tri1", 1), BaseRec("mix2", 1), BaseRec("mul22", 1)}
 Bases_sim == {BaseRec("line4", 2), BaseRec("line3p", 2), BaseRec("rect22", 2), BaseRec("rect32p", 1), BaseRec("mp21", 2),
               BaseRec("tri1", 2), BaseRec("tri2", 1), BaseRec("mix2", 1), BaseRec("mul22", 2), BaseRec("mul32p", 1)}
@@ -20,11 +20,16 @@ Bases_simdeep == {BaseRec("line3", 3), BaseRec("line3p", 3), BaseRec("rect32", 2
                   BaseRec("tri2", 2), BaseRec("mix3", 1), BaseRec("mix2", 2), BaseRec("mul32p", 2)}
 Bases_mutant == {BaseRec("line3p", 1), BaseRec("rect21", 1)}
 
-Ops_all == {"refine", "refspace", "refby", "hierand", "take", "select", "remove", "union", "slice", "trim"}
+Ops_all == {"refine", "refspace", "refby", "hierand", "take", "select", "remove", "union", "slice", "trim", "trim2"}
 Ops_core == {"refine", "refspace", "refby", "take", "select", "slice", "trim"}
 Ref_01 == {0, 1}
 Ref_012 == {0, 1, 2}
 Ref_1 == {1}
+Ref_12 == {1, 2}
+Ops_trim2 == {"trim2", "refby", "refine", "trim", "hierand"}
+Ops_deep == {"refine", "refby", "hierand", "select", "remove", "slice", "trim"}
+Ref_2 == {2}
+Bases_trim2 == {BaseRec("rect21", 2), BaseRec("mp21", 1)}
 
 View == <<base, cells, comp, st, sg>>
 Emit(x) == PrintT(<<"VF", ToJson(x)>>)
